@@ -14,7 +14,7 @@ use {
 const WEIGHTS: [i64; 6] = [-3, -1, 0, 1, 2, 5];
 const INF: isize = isize::MAX;
 
-fn to_isize(best: &[Option<i64>]) -> Vec<isize> {
+fn to_isize(best: &[Option<i128>]) -> Vec<isize> {
     best.iter().map(|b| b.map_or(INF, |x| x as isize)).collect()
 }
 
